@@ -4,7 +4,7 @@ import os as real_os
 from esrally import exceptions
 from esrally.mechanic import provisioner, team
 
-from harness.common import concrete
+from harness.common import accessor, concrete
 from symx import core
 from symx.core import fresh_bool, fresh_int, observe, shadowed
 from symx.explore import Harness
@@ -387,7 +387,7 @@ def cleanup(sl):
         observe("cleanup removes every existing data path and the installation, each exactly once (a failing removal does not stop the rest)", removed == want)
 
 
-READS = [team.load_car, team.CarLoader.load_car, team.CarLoader._copy_section, team.CarLoader._value, provisioner.ElasticsearchInstaller.variables.fget,
+READS = [team.load_car, team.CarLoader.load_car, team.CarLoader._copy_section, team.CarLoader._value, accessor(provisioner.ElasticsearchInstaller.variables),
          provisioner.ElasticsearchInstaller._data_paths, provisioner._apply_config, provisioner.plain_text, provisioner.cleanup]
 
 HARNESSES = [
